@@ -147,6 +147,52 @@ func checkC17(c *Ctx) {
 			}
 		}()
 	}
+	// (5) ranges are expanded by another routine than single positions: the whole list as one range, and
+	// overlapping windows, must expand to exactly the per-position messages
+	ranges := [][2]int{{0, len(lines)}}
+	for lo := 0; lo < len(lines); lo += 1500 {
+		hi := lo + 1700
+		if hi > len(lines) {
+			hi = len(lines)
+		}
+		ranges = append(ranges, [2]int{lo, hi})
+	}
+	for k := 0; k < c.Pick(4, 60); k++ {
+		lo := r.Intn(len(lines))
+		ranges = append(ranges, [2]int{lo, lo + 1 + r.Intn(len(lines)-lo)})
+	}
+	for _, rg := range ranges {
+		c.Eval(1)
+		c.Distinct(fmt.Sprintf("range:%d-%d", rg[0], rg[1]))
+		var msgs []requests.MessageToSign
+		var err error
+		func() {
+			defer func() {
+				if x := recover(); x != nil {
+					err = fmt.Errorf("panic: %v", x)
+				}
+			}()
+			msgs, err = requests.TasksToMessages([]requests.SigningTask{{MessageID: "whole", RangeStart: rg[0], RangeEnd: rg[1]}})
+		}()
+		if err != nil {
+			c.Violate("C17/valid-range-refused", fmt.Sprintf("range [%d,%d) inside the list is refused: %v", rg[0], rg[1], err), map[string]interface{}{"range": rg})
+			continue
+		}
+		if len(msgs) != rg[1]-rg[0] {
+			c.Violate("C17/range-expands-to-wrong-number-of-messages", fmt.Sprintf("range [%d,%d) expands to %d messages", rg[0], rg[1], len(msgs)), map[string]interface{}{"range": rg})
+			continue
+		}
+		for k, m := range msgs {
+			p := rg[0] + k
+			idx, _ := oracle.BakedIndex(p)
+			ref := oracle.RefSigningRoot(idx)
+			if m.MessageID != lines[p] || hex.EncodeToString(m.Payload) != hex.EncodeToString(ref[:]) || m.File != fmt.Sprintf("bakedrange%d", p) {
+				c.Violate("C17/range-expansion-differs-from-positions", fmt.Sprintf("range [%d,%d): element %d is id=%q file=%q instead of validator %d", rg[0], rg[1], k, m.MessageID, m.File, idx), map[string]interface{}{"range": rg, "position": p})
+				break
+			}
+		}
+	}
+	c.Set("ranges_expanded", len(ranges))
 	c.Exhaustive = true
 	c.Set("random_indices", nrand)
 }
